@@ -2149,6 +2149,13 @@ func (l *LanguageServer) handleWorkspaceDidDeleteFiles(
 		}
 	}
 
+	// the aggregate data of the deleted files is gone, so the aggregate
+	// violations of the remaining files (e.g. unresolved imports) may have changed
+	l.lintWorkspaceJobs <- lintWorkspaceJob{
+		Reason:              "workspace/didDeleteFiles",
+		AggregateReportOnly: true,
+	}
+
 	return struct{}{}, nil
 }
 
